@@ -128,3 +128,57 @@ Print Assumptions T09_datetime_maxday.
 Theorem T09_boolean_lex : forall s, bool_check s = None <-> bool_lex s = true.
 Proof. exact bool_check_lex. Qed.
 Print Assumptions T09_boolean_lex.
+
+(** ** whitespace facet at work, restriction chains, dateTime normalisation *)
+From XV Require Import C09.Spec09d C09.Model09d C09.Spec09e C09.Model09e C09.Proofs09g C09.Proofs09h C09.Proofs09i.
+Local Open Scope N_scope.
+
+(** SchemaValidator::normalizeWhiteSpace, called once per chunk of character data (text, CDATA sections, character
+    references) with its state carried in fTrailing / fSeenNonWhiteSpace, computes the whiteSpace facet of 4.3.6 on the
+    WHOLE value, for every chunking *)
+Theorem T09_ws_chunks : forall m chunks, nws_run m chunks = ws_apply m (concat chunks).
+Proof. exact nws_run_correct. Qed.
+Print Assumptions T09_ws_chunks.
+
+(** inheritFacet + boundsCheck over a restriction chain (abstract ordered value space, all four bound facets): if every
+    step is a valid restriction of its base, the validator of the last step accepts exactly the values that satisfy the
+    bounds of every step; so a derived type never accepts what its base rejects *)
+Theorem T09_facet_inherit : forall (V : Type) (cmp : V -> V -> comparison) chain v,
+  chain_tight V cmp (mkB None None None None) chain ->
+  bounds_accept V cmp (merged_bounds V chain) v = chain_ok V cmp chain v.
+Proof. exact facet_inherit. Qed.
+Print Assumptions T09_facet_inherit.
+
+Theorem T09_facet_inherit_subset : forall (V : Type) (cmp : V -> V -> comparison) chain this v,
+  chain_tight V cmp (mkB None None None None) (chain ++ [this]) ->
+  bounds_accept V cmp (merged_bounds V (chain ++ [this])) v = true ->
+  bounds_accept V cmp (merged_bounds V chain) v = true.
+Proof. exact derived_subset_of_base. Qed.
+Print Assumptions T09_facet_inherit_subset.
+
+(** XMLDateTime::normalize: for a valid dateTime (year >= 2, hour 24 allowed) and an offset up to 14:59, the local
+    time is shifted by exactly the offset and month/day/hour/minute end up in range ... *)
+Theorem T09_datetime_normalize_fields : forall negate tzh tzm v,
+  (negate = 1 \/ negate = -1)%Z -> (0 <= tzh <= 14)%Z -> (0 <= tzm <= 59)%Z -> (2 <= n_y v)%Z -> (1 <= n_mo v <= 12)%Z ->
+  (1 <= n_d v <= max_day (n_y v) (n_mo v))%Z -> (0 <= n_h v <= 24)%Z -> (0 <= n_mi v <= 59)%Z ->
+  let r := normalize negate tzh tzm v in
+  (secs_of r = secs_of v + negate * (tzh * 60 + tzm) * 60 /\
+   1 <= n_mo r <= 12 /\ 1 <= n_d r <= max_day (n_y r) (n_mo r) /\ 0 <= n_h r <= 23 /\ 0 <= n_mi r <= 59 /\ n_s r = n_s v)%Z.
+Proof. exact normalize_timeline. Qed.
+Print Assumptions T09_datetime_normalize_fields.
+
+(** ... hence the instant on the Spec's timeline is preserved: the literal's fields with its zone and the normalised
+    fields read as UTC denote the same rational number of seconds *)
+Theorem T09_datetime_normalize : forall negate tzh tzm v frac,
+  (negate = 1 \/ negate = -1)%Z -> (0 <= tzh <= 14)%Z -> (0 <= tzm <= 59)%Z -> (2 <= n_y v)%Z -> (1 <= n_mo v <= 12)%Z ->
+  (1 <= n_d v <= max_day (n_y v) (n_mo v))%Z -> (0 <= n_h v <= 24)%Z -> (0 <= n_mi v <= 59)%Z ->
+  Qeq (timeline (fields_of (normalize negate tzh tzm v) frac (Some 0%Z)))
+      (timeline (fields_of v frac (Some (- negate * (tzh * 60 + tzm))%Z))).
+Proof. exact normalize_preserves_instant. Qed.
+Print Assumptions T09_datetime_normalize.
+
+Example T09_nonvacuous_normalize :       (* 2001-11-30T23:30:00-02:00  ->  2001-12-01T01:30:00Z *)
+  normalize 1 2 0 (mkN 2001 11 30 23 30 0) = mkN 2001 12 1 1 30 0 /\
+  normalize 1 14 0 (mkN 2001 12 31 23 30 0) = mkN 2002 1 1 13 30 0 /\
+  normalize (-1) 14 0 (mkN 2000 3 1 0 30 0) = mkN 2000 2 29 10 30 0.
+Proof. vm_compute. repeat split; reflexivity. Qed.
